@@ -770,7 +770,10 @@ class C15(fw.Prop):
             "TrackedDfg (Case2: both observations are monitored); 40% of the other streams get alias flags "
             "too.  non-trivial = an "
             "integer argument is used after an earlier add rebound it, or a hole exists, or metadata is given, "
-            "or the run ends in an exception")
+            "or the run ends in an exception.  Second pass (extra): 150 / 1500 tracked-builder programs of C01's "
+            "generator (harness/progs.py gen_tracked_program) run on the real TrackedDfg; those without load are "
+            "translated to this property's language and the premises (wf_prog of the explicit translation, twf) and the "
+            "conclusion (Builder.run == hugr-py's document, valid) of C15_tracked_programs_valid are evaluated in Coq")
     trusted = ["node naming by creation order: the harness maps names to the Node handles the builders return",
                "operations are observed through _to_serial(...).model_dump_json() plus the node's port counts; "
                "metadata values through json.dumps",
@@ -779,7 +782,10 @@ class C15(fw.Prop):
                "object reuse (case['alias']) is realised by the harness: the plain builder gets its own objects "
                "with the tracked side's operation-sharing pattern; partial operations are not shared in programs "
                "with an UnpackTuple command"]
-    assumptions = ["one flat dataflow region (all wires are siblings); wires name nodes by creation order"]
+    assumptions = ["one flat dataflow region (all wires are siblings); wires name nodes by creation order",
+                   "composition with C01: the typed operation descriptions (specs) and the type table are supplied by "
+                   "the harness (C01's Tab interning of the serialised document); load / nested regions are outside the "
+                   "fragment of C15_tracked_programs_valid"]
 
     def __init__(self):
         self.I = fw.Interner()
